@@ -30,6 +30,11 @@ Conditions:
   not C | C and C | C or C | addr <cmp> int | addr in range(a, b) | isinstance(socket, tco.RawAccessPoint) -> is_raw
   | self.sap[addr] is [not] None -> occ_free occ addr | service_name_format.match(name) -> name_ok
   | self.snl.get(name) is not None -> name_bound
+nfc.llcp.socket.Socket (the application's handle): every method must be exactly
+  `return self.llc.M(self._tco, <its own parameters, in order>)`  -> gen_c17_Socket_M f tco a1 .. an := f tco a1 .. an
+(accept: a new Socket around llc.accept(self._tco); resolve: llc.resolve(name); __init__/llc property: the stored
+controller and llc.socket(sock_type)); the default of bind's address must be None.  A test, a conversion or a
+default in between (e.g. `if not address:`) is rejected.
 NOT translated: the regular expression service_name_format (a parameter `name_ok`; Model.name_valid is tied to it
 by the correspondence run only), the dictionary self.snl (parameter `name_bound`), object construction.
 """
@@ -43,6 +48,7 @@ import py2coq  # noqa: E402
 
 Unsupported = py2coq.Unsupported
 LLC = 'src/nfc/llcp/llc.py'
+SOCK = 'src/nfc/llcp/socket.py'
 
 
 def U(n):
@@ -320,6 +326,77 @@ def gen_dispatch(tree):
             % (zlit(intconst(r.body, 'DM reason')), zlit(intconst(r.orelse, 'DM reason'))))
 
 
+PASS = [  # method, llc method, parameters, defaults (source text)
+    ('setsockopt', 'setsockopt', ['option', 'value'], []),
+    ('getsockopt', 'getsockopt', ['option'], []),
+    ('bind', 'bind', ['address'], ['None']),
+    ('connect', 'connect', ['address'], []),
+    ('listen', 'listen', ['backlog'], []),
+    ('send', 'send', ['data', 'flags'], ['0']),
+    ('sendto', 'sendto', ['data', 'addr', 'flags'], ['0']),
+    ('recv', 'recv', [], []),
+    ('recvfrom', 'recvfrom', [], []),
+    ('poll', 'poll', ['event', 'timeout'], ['None']),
+    ('getsockname', 'getsockname', [], []),
+    ('getpeername', 'getpeername', [], []),
+    ('close', 'close', [], []),
+]
+
+
+def body_of(fn):
+    b = fn.body
+    if b and isinstance(b[0], ast.Expr) and isinstance(b[0].value, ast.Constant) and isinstance(b[0].value.value, str):
+        b = b[1:]
+    return b
+
+
+def gen_socket(repo):
+    tree = ast.parse(open(os.path.join(repo, SOCK), encoding='latin-1').read())
+    cls = only('class Socket', [n for n in tree.body if isinstance(n, ast.ClassDef) and n.name == 'Socket'])
+    meths = dict((n.name, n) for n in cls.body if isinstance(n, ast.FunctionDef))
+    known = set(m for m, _, _, _ in PASS) | {'__init__', 'llc', 'resolve', 'accept'}
+    if set(meths) != known:
+        raise Unsupported('Socket: methods changed: %s' % sorted(set(meths) ^ known))
+    out = ['(* nfc.llcp.socket.Socket: every operation hands its arguments to the link controller unchanged *)\n']
+    for m, lm, params, defaults in PASS:
+        fn = meths[m]
+        method_args2(fn, ['self'] + params, defaults)
+        want = 'return self.llc.%s(%s)' % (lm, ', '.join(['self._tco'] + params))
+        got = [U(x) for x in body_of(fn)]
+        if got != [want]:
+            raise Unsupported('Socket.%s is not a plain pass-through: %s' % (m, got))
+        tys = ' '.join('A%d' % k for k in range(len(params)))
+        bs = ' '.join('(%s : A%d)' % (v, k) for k, v in enumerate(params))
+        out.append('Definition gen_c17_Socket_%s {T %s R : Type} (f : T%s -> R) (tco : T) %s : R :=\n  f tco%s.\n'
+                   % (m, tys, ''.join(' -> A%d' % k for k in range(len(params))), bs, ''.join(' ' + v for v in params))
+                   if params else
+                   'Definition gen_c17_Socket_%s {T R : Type} (f : T -> R) (tco : T) : R :=\n  f tco.\n' % m)
+    method_args2(meths['resolve'], ['self', 'name'], [])
+    if [U(x) for x in body_of(meths['resolve'])] != ['return self.llc.resolve(name)']:
+        raise Unsupported('Socket.resolve is not a plain pass-through')
+    out.append('Definition gen_c17_Socket_resolve {A R : Type} (f : A -> R) (name : A) : R :=\n  f name.\n')
+    method_args2(meths['accept'], ['self'], [])
+    if [U(x) for x in body_of(meths['accept'])] != ['socket = Socket(self._llc, None)', 'socket._tco = self.llc.accept(self._tco)', 'return socket']:
+        raise Unsupported('Socket.accept changed')
+    out.append('Definition gen_c17_Socket_accept {T R : Type} (f : T -> R) (tco : T) : R :=\n  f tco.\n')
+    method_args2(meths['__init__'], ['self', 'llc', 'sock_type'], [])
+    if [U(x) for x in body_of(meths['__init__'])] != ['self._tco = None if sock_type is None else llc.socket(sock_type)', 'self._llc = llc']:
+        raise Unsupported('Socket.__init__ changed')
+    if [U(x) for x in body_of(meths['llc'])] != ['return self._llc'] or [U(d) for d in meths['llc'].decorator_list] != ['property']:
+        raise Unsupported('Socket.llc changed')
+    for m, fn in meths.items():
+        if m != 'llc' and fn.decorator_list:
+            raise Unsupported('Socket.%s is decorated' % m)
+    return '\n'.join(out)
+
+
+def method_args2(fn, expected, defaults):
+    got = [a.arg for a in fn.args.args]
+    dfl = [U(d) for d in fn.args.defaults]
+    if got != expected or dfl != defaults or fn.args.vararg or fn.args.kwarg or fn.args.kwonlyargs:
+        raise Unsupported('%s: arguments %s defaults %s, expected %s %s' % (fn.name, got, dfl, expected, defaults))
+
+
 def generate(repo):
     tree = ast.parse(open(os.path.join(repo, LLC), encoding='latin-1').read())
     out = [PRELUDE % {'src': LLC + ' (translate/kspec_c17.py)'}]
@@ -357,10 +434,11 @@ def generate(repo):
     out.append(gen_remove(tree))
     out.append(gen_enqueue(tree))
     out.append(gen_dispatch(tree))
+    out.append(gen_socket(repo))
     return '\n'.join(out)
 
 
-generate.SOURCE = LLC
+generate.SOURCE = LLC + ' + ' + SOCK
 KERNELS = {'AddrK': generate}
 
 if __name__ == '__main__':
